@@ -414,6 +414,18 @@ func runC13(c *Ctx) {
 			{"set q to pattern 'a' or 'd'\nset b to pattern {'b' maybe q} = q 'd'\nfind all b q", "find all ({'b' maybe r} = r 'd') ('a' or 'd')"},
 			{"set q to pattern 'a'\nfind all {'b'} = q q\nfind all q", "find all ('b') ('b')\nfind all 'a'"},
 			{"set a to pattern 'a'\nfind all a 'b'\nset a to pattern 'd'\nfind all a 'b'", "find all 'a' 'b'\nfind all 'd' 'b'"},
+			// a definition built from its previous self; a subroutine that carries the name of the pattern it stands in
+			{"set p to pattern 'a'\nset p to pattern p 'b'\nfind all p", "find all ('a') 'b'"},
+			{"set p to pattern 'a'\nset p to pattern p 'b'\nfind all p p", "find all (('a') 'b') (('a') 'b')"},
+			{"set p to pattern 'a'\nset p to pattern p 'b'\nset p to pattern 'd' p\nfind all p", "find all 'd' (('a') 'b')"},
+			{"set q to pattern {'a'} = q 'b' q\nfind all q", "find all ({'a'} = r 'b' r)"},
+			{"set q to pattern {'a'} = q 'b' q\nfind all q 'd' q", "find all ({'a'} = r 'b' r) 'd' ({'a'} = t 'b' t)"},
+		}
+		// stored patterns of three and more top-level elements with a control structure late in the body
+		for _, body := range []string{"'a' 'b' maybe 'd'", "'a' 'b' at least 1 'd'", "'a' 'b' ('a' or 'd')", "'a' 'b' in 'a', 'd'", "'a' 'b' not in 'a'", "'a' 'b' {'d' maybe s} = s",
+			"any any any at least 0 'a' 'b'", "'a' 'b' 'd' 'a' maybe 'b'", "'a' maybe 'b' 'd' (any or 'b')", "'a' 'b' 'd' at most 2 ('a' or 'b') 'd'", "'d' '-' ('a' or 'b') 'd'"} {
+			pairs = append(pairs, [2]string{"set w to pattern " + body + "\nfind all w", "find all " + body},
+				[2]string{"set w to pattern " + body + "\nfind all w 'a' w", "find all (" + body + ") 'a' (" + strings.ReplaceAll(body, "= s", "= s2") + ")"})
 		}
 		ntexts := texts("abd", 5)
 		for _, pr := range pairs {
